@@ -246,6 +246,21 @@ Qed.
 Definition plain_code (c : list byte) (off len : N) : N :=
   if lenN (take len (drop off c)) <? len then E_EOF else E_OK.
 
+Lemma plain_code_eq c off len : plain_code c off len = if lenN c - off <? len then E_EOF else E_OK.
+Proof.
+  unfold plain_code. rewrite lenN_take, lenN_drop.
+  destruct (N.ltb_spec (N.min len (lenN c - off)) len); destruct (N.ltb_spec (lenN c - off) len);
+    try reflexivity; lia.
+Qed.
+
+Lemma plain_code_shift c off len n : off < lenN c -> n <= len -> n <= lenN c - off ->
+  plain_code c (off + n) (len - n) = plain_code c off len.
+Proof.
+  intros H0 H1 H2. rewrite !plain_code_eq.
+  destruct (N.ltb_spec (lenN c - (off + n)) (len - n)); destruct (N.ltb_spec (lenN c - off) len);
+    try reflexivity; lia.
+Qed.
+
 Lemma read_loop_rep r c : Rep r c ->
   forall f off len acc, off mod DL + len <= N.of_nat f * DL ->
     read_loop (S f) r off len 0 acc = (acc ++ take len (drop off c), plain_code c off len).
@@ -285,9 +300,9 @@ Proof.
       - replace (lenN piece) with nb' by lia. reflexivity.
       - rewrite !(drop_all _ c) by lia. now rewrite !take_nil. }
     assert (Hcode : plain_code c (off + lenN piece) (len - lenN piece) = plain_code c off len).
-    { unfold plain_code. rewrite !lenN_take, !lenN_drop.
-      destruct (N.ltb_spec (N.min (len - lenN piece) (lenN c - (off + lenN piece))) (len - lenN piece));
-      destruct (N.ltb_spec (N.min len (lenN c - off)) len); try reflexivity; lia. }
+    { assert (H1 : lenN piece <= len) by lia. assert (H2 : lenN piece <= lenN c - off) by lia.
+      revert H1 H2. generalize (lenN piece). intros n H1 H2. clear - H1 H2 Hoff.
+      apply plain_code_shift; assumption. }
     rewrite N.sub_0_l.
       destruct (N.eqb_spec (len - lenN piece) 0) as [Hz|Hz].
       { rewrite Hz, read_loop_zero. rewrite Hsplit, Hz, take_0, app_nil_r.
